@@ -361,7 +361,7 @@ func mkValue(kind int, s string, i int) interface{} {
 	case vkMapUint64:
 		return map[uint64]string{uint64(1<<63) + uint64(i): s, 1: "x", 7: "y"}
 	case vkMapInt64Extreme:
-		return map[int64]string{-9223372036854775808: s, 1: "x", -5: "y", 9223372036854775807: "z"}
+		return map[int64]string{-9223372036854775808: s, 1: "x", 9223372036854775807: "z"}
 	case vkMapIntNeg:
 		return map[int]int{-(1 << 62) - (1 << 61): 1, 1 << 62: 2, i: 3}
 	case vkEnumStringer:
